@@ -205,12 +205,10 @@ func (server *SugarDB) handleCommand(ctx context.Context, message []byte, conn *
 
 	if !server.isInCluster() || !synchronize {
 		res, err := safeHandle(handler, server.getHandlerFuncParams(ctx, cmd, conn))
-		if err != nil {
-			return nil, err
-		}
 
 		if internal.IsWriteCommand(command, subCommand) {
-			// Keep the memory figure in step with collections that were modified in place.
+			// Keep the memory figure in step with collections that were modified in place - also when the
+			// handler failed: a write that is refused at the memory limit has changed its collection by then.
 			keyFunc := command.KeyExtractionFunc
 			if ok && subCommand.KeyExtractionFunc != nil {
 				keyFunc = subCommand.KeyExtractionFunc
@@ -220,6 +218,9 @@ func (server *SugarDB) handleCommand(ctx context.Context, message []byte, conn *
 					server.reconcileMemory(ctx, keys.WriteKeys)
 				}
 			}
+		}
+		if err != nil {
+			return nil, err
 		}
 
 		verifhook.Yield("cmd.after_handler")
